@@ -85,6 +85,20 @@ def numbers(ctx):
                     ctx.violation('bounded: serialised number is a fixpoint', f'{text!r} -> {out!r} -> {out2!r}', True, {'text': text, 'omitLeadingZero': omit})
                 if len(samples) < 3 and fr == '05':
                     samples.append({'text': text, 'omitLeadingZero': omit, 'out': out})
+        # integers beyond the double mantissa: an integer literal denotes exactly that integer (no fraction, so no float is involved)
+        for sg, ip, un in itertools.product(signs, ['9007199254740993', '99999999999999999999', '18446744073709551617', '123456789012345678901234567890'], ['', 'px', '%']):
+            text = sg + ip + un
+            n += 1
+            pv = PropertyValue(text)
+            if not pv.wellformed or len(pv) != 1:
+                ctx.violation('bounded: a decimal literal with a unit parses to one numeric component', f'{text!r}: wellformed={pv.wellformed} items={len(pv)}', True, {'text': text})
+                continue
+            m = NUM_RE.match(pv.cssText)
+            kinds.add(('bigint', sg, un))
+            if not m or m.group(2) != ip or (m.group(1) == '-') != (sg == '-') or m.group(3).lower() != un:
+                ctx.violation('bounded: number serialised as the same real number', f'{text!r} -> {pv.cssText!r} (integer beyond 2**53)', True, {'text': text})
+            elif pv[0].value != int(sg + ip):
+                ctx.violation('bounded: DimensionValue.value agrees with the source text', f'{text!r}: value={pv[0].value!r}', True, {'text': text})
     finally:
         cssutils.ser.prefs.useDefaults()
     # recorded finding: more than 15 significant digits do not survive the float representation
@@ -270,6 +284,69 @@ def strings_and_urls(ctx):
                         'rule': f'all strings of length <= {maxlen} over the critical alphabet {alphabet!r}, in both quote styles and as url("..."), written by an independent CSS string writer; '
                                 'distinct = set of characters used',
                         'samples': samples, 'bound': f'length <= {maxlen}'})
+
+
+def css21_unescape(src):
+    """independent decoder of the escapes inside a CSS 2.1 string / URL / identifier (4.1.3): backslash + 1-6 hex digits + at most one white
+    space character out of space, tab, LF, CR, FF (CR LF counts as one); backslash + line break = nothing (strings); backslash + other = that char"""
+    out, i = [], 0
+    while i < len(src):
+        c = src[i]
+        if c != '\\':
+            out.append(c)
+            i += 1
+            continue
+        j = i + 1
+        k = j
+        while k < len(src) and k - j < 6 and src[k] in '0123456789abcdefABCDEF':
+            k += 1
+        if k > j:
+            if not 0 < int(src[j:k], 16) <= 0x10FFFF:
+                return None  # no Unicode code point (or zero): CSS 2.1 leaves the meaning open - out of the domain
+            out.append(chr(int(src[j:k], 16)))
+            if src[k:k + 2] == '\r\n':
+                k += 2
+            elif k < len(src) and src[k] in ' \t\n\r\f':
+                k += 1
+            i = k
+        elif src[j:j + 2] == '\r\n':
+            i = j + 2
+        elif j < len(src) and src[j] in '\n\r\f':
+            i = j + 1
+        else:
+            out.append(src[j:j + 1])
+            i = j + 1
+    return ''.join(out)
+
+
+def hex_escapes(ctx):
+    """hex escapes with every kind of character behind them (the terminator is ONE CSS white space character; other Unicode spaces, control
+    characters, hex digits and letters are content) inside strings and quoted URLs"""
+    _quiet()
+    escs = ['\\41', '\\2014', '\\e9', '\\000041', '\\00e9', '\\1F600']
+    followers = ['', ' ', '  ', '\t', '\n', '\r\n', '\f', '\xa0', '\u2003', '\u3000', '\u2028', '\x0b', '\x1c', '\x1f', '\x85', 'a', 'g', '1', '-', '\\41']
+    n, kinds = 0, set()
+    for e, f, tail in itertools.product(escs, followers, ['', 'x']):
+        body = 'a' + e + f + tail
+        if '\n' in f or '\f' in f or '\r' in f:
+            pass  # a raw line break right behind a hex escape is its terminator, legal inside a string
+        want = css21_unescape(body)
+        if want is None:
+            continue
+        for kind, src in (('STRING', '"' + body + '"'), ('URI', 'url("' + body + '")')):
+            n += 1
+            kinds.add((len(e), f, kind))
+            pv = PV(src)
+            if not pv.wellformed or len(pv) != 1 or pv[0].type != kind:
+                ctx.violation('bounded: a string / URL with a hex escape parses to one component', f'{src!r}', True, {'source': src})
+                continue
+            held = pv[0].value if kind == 'STRING' else pv[0].uri
+            if held != want:
+                ctx.violation('bounded: a hex escape ends after its digits and at most one CSS white space character', f'{src!r}: content {held!r}, denotes {want!r}', True, {'source': src})
+    ctx.bounded.append({'name': 'hex escapes x following character', 'evaluations': n, 'distinct_nontrivial': len(kinds),
+                        'rule': f'{len(escs)} hex escapes (1-6 digits) x {len(followers)} following characters (CSS white space, other Unicode spaces, controls, hex digit, letter, escape) x end / more '
+                                'text, in a string and in a quoted URL; content compared with an independent CSS 2.1 decoder; distinct = (digits, follower, kind)',
+                        'samples': [{'source': '"a\\2014\xa0x"'}], 'bound': f'{len(escs)}x{len(followers)}x2x2', 'exhaustive': True})
 
 
 def separators(ctx):
